@@ -131,6 +131,15 @@ def discharge(ob: Obligation, timeout_ms: int = 30000, try_cvc5: bool = True) ->
                                   goal_text=gt, reason="sat"))
             continue
         reason = s.reason_unknown()
+        if try_cvc5:  # (not in hurry mode) another instantiation order before giving the goal to cvc5
+            for seed in (1, 2):
+                r2, s2, dt2 = check(h, g, max(1000, timeout_ms // 3), seed=seed)
+                dt += dt2
+                if r2 == z3.unsat:
+                    break
+            if r2 == z3.unsat:
+                results.append(Result(ob, "proved", f"z3(seed={seed})", dt, sub=idx))
+                continue
         if try_cvc5:
             t0 = time.time()
             ans = cvc5_check(s.to_smt2().replace("(check-sat)", ""), max(5, timeout_ms // 1000))
